@@ -57,6 +57,14 @@ func canonRV(sb *strings.Builder, v reflect.Value, depth int) {
 			// encoded can be out of order while the decoded row lists the same columns in order
 			cols := append([]uint64(nil), x.Columns()...)
 			sort.Slice(cols, func(i, j int) bool { return cols[i] < cols[j] })
+			// ... and when the next shard holds that column too, Columns() lists it twice
+			uniq := cols[:0]
+			for i, c := range cols {
+				if i == 0 || c != cols[i-1] {
+					uniq = append(uniq, c)
+				}
+			}
+			cols = uniq
 			fmt.Fprintf(sb, "row{cols:%v keys:%v attrs:%s}", cols, x.Keys, canonVal(x.Attrs))
 			return
 		case *roaring.Bitmap:
